@@ -803,7 +803,27 @@ def make_case(tape_bytes):
         return item
 
     items = [trans_item() if t.chance(3, 4) else call_item() for _ in range(t.pick([1, 1, 2, 3]))]
+    used = _used_names(items)
+    data = {k: v for k, v in data.items() if k in used}  # keep replay files small: only names some item can read
     return {"cfg": cfg, "styles": ALL_STYLES, "prefix": text(0, 2), "items": items, "data": data}
+
+
+def _used_names(items):
+    used = set()
+    for it in items:
+        if it["t"] == "trans":
+            for name, e in it["decls"]:
+                used.add(e.get("n", name))
+            for segs in (it["sing"], it["plur"] or []):
+                used.update(s["v"] for s in segs if "v" in s)
+        else:
+            used.update(it["kw"].values())
+            if it.get("n", {}).get("k") == "var":
+                used.add(it["n"]["n"])
+            for m in (it["msg"], it.get("plural")):
+                if m and "n" in m:
+                    used.add(m["n"])
+    return used
 
 
 def case_strategy():
